@@ -190,14 +190,14 @@ PROPS = {
     "C14": {
         "needs_bins": True,
         "trusted_base": COMMON_TB + ["the real `mocset` binary is rebuilt from /repo and driven as a process; exit status, `list` stdout, file bytes and `extract` output are what is observed"],
-        "assumptions": COMMON_ASSUME + ["the model is the abstract registry (ordered entries); the byte layout of the file is not modelled (byte sizes are)",
+        "assumptions": COMMON_ASSUME + ["two models: the abstract registry (ordered entries) and the FILE (metadata / index words, data bytes: Model/MocSetFile.lean), related by the proved abstraction map `abs`; the memory map / page cache / file system are not modelled (a store is visible at once)",
             "an unknown identifier in chgstatus is reported by a WARNING on stderr with exit status 0 (as the code does); `report failure` is read as that warning",
             "command-line domain (identifier <= 2^48 - 1, status in {removed, deprecated, valid}) is part of the model (msAppendCmd / msChgStatusCmd, theorem cmd_domain): such a command is refused and leaves the file unchanged"],
         "rule": "random command histories (make, then 3..10 of append / chgstatus / purge / update-while-locked) over a population of 8 identifiers, valid and deprecated (negative) ids, MOCs of "
                 "shallow (<=13, 32-bit storage) and deep (64-bit) depths, empty MOCs, FITS inputs on 32 and 64 bits; one history out of 6 fills an n128=1 file completely (127 slots) and then "
                 "appends / changes status. After EVERY command: exit status + all `list` rows against the model; refused commands must leave the file bytes unchanged; no lock left behind; at "
                 "the end `extract` of every live id must equal the MOC added under it. distinct_nontrivial = distinct (history prefix) op lines with more than one command.",
-        "explanation": "theorems on the reference state machine (refusal leaves state unchanged, append iff id not live and not full, uniqueness of live ids, purge, list, extract); correspondence with the real binary after every command",
+        "explanation": "theorems on the reference state machine (refusal leaves state unchanged, append iff id not live and not full, uniqueness of live ids, purge, list, extract) and refinement of the FILE model (words and bytes) to it for every command and every history; correspondence with the real binary after every command: exit status, list rows, and the file itself word for word (op msf)",
     },
     "C15": {
         "needs_bins": True,
